@@ -192,6 +192,14 @@ func (a *APIClient) MatchingVersions(ctx context.Context, vk VersionKey) ([]Vers
 		return []Version{bv.Version}, nil
 	}
 	vers, err := a.Versions(ctx, vk.PackageKey)
+	if errors.Is(err, ErrNotFound) {
+		// A requirement on a package the service does not know is matched
+		// by no version. (LocalClient answers the same way: AddVersion
+		// gives every package named by a dependency an entry, possibly
+		// empty.) Returning the error would make a resolver give up on the
+		// whole graph because of one unpublished dependency.
+		return nil, nil
+	}
 	if err != nil {
 		return nil, err
 	}
